@@ -288,9 +288,9 @@ def c04(tier, rep):
                 p = fp.build(mac, ds, **kw)
                 rows = fp.offset_rows()
                 if is_try:
-                    # one row per fault slot (wide programs share slots: several positions fail together, reference alike)
+                    # one row per fault slot: every single (branch, step) position fails once
                     for sl in sorted(set(fp.fail_slots(ds))):
-                        r = [0] * (fp.OFF + 1)
+                        r = [0] * (max(fp.OFF, sl) + 1)
                         r[sl] = 1
                         rows.append(r)
                 progs.append(fp.to_prog("wide/%s/n%d-%s/%s" % (mac, n, fp.pname(ds)[:16], mname), p, rows))
@@ -388,6 +388,18 @@ def tryfail_family(tier):
                     for fo in ("filter", "zip", "flatten"):
                         p = fp.build(mac, ds, flavour="Opt", rich=True, failop=fo)
                         progs.append(fp.to_prog("%s/Opt/%s/%s" % (mac, fp.pname(ds), fo), p, [[0]], sub=fp.fail_slots(ds)))
+    # wide steps (33, 35 and 65 active branches): every SINGLE failure position, one row each (array / chunk thresholds at 32, 64)
+    for ds in ((1, 2) * 16 + (3,), (2,) * 34 + (1,), (2,) * 64 + (3,)):
+        for mac in ("try_join", "try_join_spawn"):
+            if len(ds) > 40 and (mac != "try_join" or tier == "quick" and False):
+                continue
+            p = fp.build(mac, ds, flavour="Res", rich=False, handler="map")  # (tuples above 12 elements have no Debug)
+            rows = [[0]]
+            for sl in fp.fail_slots(ds):
+                r = [0] * (sl + 1)
+                r[sl] = 1
+                rows.append(r)
+            progs.append(fp.to_prog("%s/Res/wide%d" % (mac, len(ds)), p, rows))
     return progs, profs, bound
 
 
@@ -543,9 +555,23 @@ def c08(tier, rep):
 
 @check("C03", "model_checking")
 def c03(tier, rep):
+    # a `~` starts a new step whatever the number of branches: single-branch programs (and programs whose later steps have a single
+    # active branch) in all 8 kinds, every step with a visible initial value / capture / operand / callback — the sequential macros
+    # leave exactly the reference's trace, the others its per-branch projections in step order
+    from . import fam_profiles as fp
+
+    sp = []
+    for ds in ((2,), (3,), (4,), (1, 3), (3, 1)):
+        for mac in KINDS8:
+            is_try = mac.startswith("try")
+            for rich in (False, True):
+                p = fp.build(mac, ds, flavour="Res" if is_try else None, init_ev=True, rich=rich)
+                sp.append(fp.to_prog("single/%s/%s/%d" % (mac, fp.pname(ds), rich), p, [[0]] if is_try else fp.offset_rows()))
+    frs = e2.run_family("c03single", sp, extra_header=fp.HEADER)
+    judge_family(rep, frs)
     run_threads(rep, tier, "c03", "step barrier (threads)")
     run_async(rep, tier, "c09", "step barrier (async)", keep=lambda w: "earlier step" in w or "event sequences" in w or w.startswith("result differs"))
-    rep.set("rule", "depth profiles n<=3,d<=3 x 4 thread-spawning macros, plain / capture-rich / deferred-wrapper steps; EVERY order of visible operations; per execution: no event of step k+1 before the last event of step k (captures, operands, callbacks alike), each branch's per-step arguments equal the reference's (continues from its own value), result equal; non-trivial program = >= 2 distinct operation orders")
+    rep.set("rule", "single-branch programs of depth 2-4 and profiles (1,3) / (3,1) in all 8 kinds, plain and capture-rich, with a visible initial value (E2: full trace in the sequential macros, per-branch projections in step order elsewhere); depth profiles n<=3,d<=3 x 4 thread-spawning macros, plain / capture-rich / deferred-wrapper steps; EVERY order of visible operations; per execution: no event of step k+1 before the last event of step k (captures, operands, callbacks alike), each branch's per-step arguments equal the reference's (continues from its own value), result equal; non-trivial program = >= 2 distinct operation orders")
 
 
 @check("C18", "fault_enumeration")
